@@ -88,6 +88,23 @@ def gen(rng, tier):
         if rng.random() < 0.5:
             d1, d2 = d2, d1
         cases.append({'D1': d1, 'D2': d2})
+    # unusual state names on one or both sides (the empty name, names that are prefixes of each other), equivalent but not isomorphic
+    # pairs with the same number of reachable states
+    def tricky(d):
+        names = G.tricky_names(rng, len(d['Q']), allow_empty=True)
+        rng.shuffle(names)
+        m = dict(zip(d['Q'], names))
+        return {'Q': [m[q] for q in d['Q']], 'Sigma': list(d['Sigma']), 'delta': [[m[q], a, m[t]] for (q, a, t) in d['delta']], 'q0': m[d['q0']], 'F': [m[q] for q in d['F']]}
+    for _ in range(200 if quick else 3000):
+        sigma = rng.choice(['a', 'ab'])
+        d1 = G.random_dfa(rng, rng.randint(1, 5), sigma, pfinal=rng.choice([0.5, 0.9]))
+        x = rng.random()
+        d2 = d1 if x < 0.3 else (_dup_state(rng, d1) if x < 0.7 else _mutate(rng, d1))
+        d1b = d1 if rng.random() < 0.5 else _dup_state(rng, d1)
+        a, b = (tricky(d1b) if len(d1b['Q']) <= 6 else d1b), (tricky(d2) if len(d2['Q']) <= 6 else d2)
+        if rng.random() < 0.5:
+            a, b = b, a
+        cases.append({'D1': a, 'D2': b})
     return cases
 
 
